@@ -4,7 +4,7 @@
     Trees may be conflicted (any odd number of terms); "the value of X at p" is the list
     of the terms' values, compared through its net counts [den]. *)
 From Verif Require Import Base.Prelude Model.Merge Model.TreeMerge Model.TreeCase Model.Rebase Model.C08.
-From Verif Require Import Proofs.TreeValue Proofs.TreeMerge Proofs.C07 Proofs.C08 Proofs.MergeIdentities Proofs.ThereBack.
+From Verif Require Import Proofs.TreeValue Proofs.TreeMerge Proofs.C07 Proofs.C08 Proofs.MergeIdentities Proofs.ThereBack Proofs.C08Full.
 Local Open Scope Z_scope.
 
 Section Statements.
@@ -96,20 +96,23 @@ Section Statements.
   Proof. exact (frmc_terminates common_ancestors root). Qed.
 End Statements.
 
-(** The statement of the property for the tree the rebase finally returns, conflicted
-    results included (all rounds of the resolve loop). Proved above for the first round and
-    for every rebase whose first round resolves; checked on the implementation's final
-    trees by the correspondence runs. *)
-Definition C08_full : Prop :=
-  forall accept content_merge (nb ob ot : list tree) p v,
+(** The two laws for the tree the rebase finally returns, conflicted results included (all
+    rounds of the resolve loop: Proofs/ResolveLoop.v). *)
+Theorem C08_full :
+  forall accept content_merge (nb ob ot : list tree),
     Nat.odd (length nb) = true -> Nat.odd (length ob) = true -> Nat.odd (length ot) = true ->
-    p <> [] -> clash_above accept (rebase_input nb ob ot) p = false ->
+    forall p v, p <> [] -> clash_above accept (rebase_input nb ob ot) p = false ->
     ((forall u, den oval_eqb (vals p ot) u = den oval_eqb (vals p ob) u) ->
      tm accept (vals p nb) = Some v ->
      path_value accept (rebase_tree accept content_merge nb ob ot) p = [v])
     /\ ((forall u, den oval_eqb (vals p ob) u = den oval_eqb (vals p nb) u) ->
         tm accept (vals p ot) = Some v ->
         path_value accept (rebase_tree accept content_merge nb ob ot) p = [v]).
+Proof.
+  intros accept content_merge nb ob ot Hnb Hob Hot p v Hp Hc. split; intros Hd Hv.
+  - now apply unchanged_paths_final.
+  - now apply agreeing_parents_final.
+Qed.
 
 Theorem C08_okb_spec : forall c : case,
   okb c = true <->
@@ -150,6 +153,7 @@ Example C08_there_and_back_nonvacuous : back_applies true nv_b nv_b' nv_t = true
 Proof. reflexivity. Qed.
 
 Print Assumptions C08_same_parents.
+Print Assumptions C08_full.
 Print Assumptions C08_there_and_back.
 Print Assumptions C08_equal_bases_general.
 Print Assumptions C08_unchanged_paths.
